@@ -23,7 +23,7 @@ def make(pid, macro, profile, idx, seed, gates=None, heavy=False, cheap=False):
         for s in range(d):
             if s >= 1 and carrier != "raw" and not is_async:
                 styles[(b, s)] = ["and_then", "map", "then"][(idx + b + s + r.randrange(3)) % 3]
-            if s >= 1 and r.random() < 0.5:
+            if s >= 1 and (r.random() < 0.5 or (is_async and len([d_ for d_ in profile if d_ > s]) == 1)):
                 captures.add((b, s))
             if not is_async and r.random() < 0.35:
                 extra.add((b, s))
@@ -105,6 +105,10 @@ def programs(tier, seed):
                   ("join_async", (3, 3), 1, True, True), ("try_join_async", (2, 2), 1, True, True), ("join_async_spawn", (2, 2), 1, True, True), ("try_join_async_spawn", (2, 2), 1, True, True)]
     if tier == "quick":
         aprofs = [a + (True,) for a in aprofs]
+    # steps with a SINGLE active branch that are not the last step (awaited directly, without join!): one-branch programs and a
+    # unique longest branch outliving the others by two steps
+    aprofs += [("join_async", (3,), 1, False, True), ("join_async", (1, 3), 1, False, True), ("try_join_async", (3,), 1, False, True),
+               ("join_async_spawn", (3, 1), 1, False, True), ("try_join_async_spawn", (1, 3), 1, False, True)]
     for macro, prof, gates, heavy, cheap in aprofs:
         i += 1
         ps.append(make("p%04d" % i, macro, prof, i, seed, gates=gates, heavy=heavy, cheap=cheap))
